@@ -176,7 +176,7 @@ def work_store(ctx, item):
 def work_generated(ctx, seed):
     import random
     rng = random.Random(seed)
-    b = gen.gen_basis(rng)
+    b = gen.gen_basis(rng, unused_prob=0.3)   # dead primitives are legal input for the manip functions (not for the validator)
     label = 'gen:%d' % seed
     if seed % 50 == 0:
         ctx.sample({'generated': label, 'basis': b})
